@@ -583,7 +583,7 @@ pub fn units(prop: &str, tier: Tier) -> Option<Vec<Unit>> {
                 .probes(NOPROBE)
                 .pairs(PairMode::Exact)
                 .unit(),
-                e1("kshare-memoized-definition-pairs", format!("one parser value used several times (let x = def; body with >= 2 uses of x; bodies of <= {} nodes over x / just / map_err / or_not / then / or / recover_with, 5 definitions): def vs def.memoized() - the uses share one memo table, so entries are really looked up (same position after backtracking, under map_err, inside a recovery strategy)", pick(8, 9)), en::k_share_pairs(pick(8, 9)))
+                e1("kshare-memoized-definition-pairs", format!("one parser value used several times (let x = def; body with >= 2 uses of x; bodies of <= {} nodes over x / just / map_err / or_not / then / or / recover_with, 5 definitions): def vs def.memoized() - the uses share one memo table, so entries are really looked up (same position after backtracking, under map_err, inside a recovery strategy)", pick(8, 8)), en::k_share_pairs(pick(8, 8)))
                     .alpha(&['a', 'b'], pick(4, 5))
                     .probes(NOPROBE)
                     .pairs(PairMode::Exact)
